@@ -31,12 +31,12 @@ CHECKS = {
             thorough=("as quick, with base-64 strings and candidates up to 8 characters, hex candidates up to 8 characters, "
                       "all four ports for every IPv6 form. The thorough tier (--deep) adds: base-64 round trips {00,01,7f,80,ff,'A'}^4..10 and every "
                       "3-byte string followed by each of 64 fourth bytes 4k+(k mod 4) (2^30 strings: complete first group x one-byte padding case); "
-                      "base-64 acceptance over 12 symbols {A B / + = * NUL a - _ LF 9}^0..8; hex candidates {0 9 a F g NUL}^0..11, hex round trips "
+                      "base-64 acceptance over 14 symbols {A B / + = * NUL a - _ LF 9 ff @}^0..8; hex candidates {0 9 a F g NUL ff}^0..10, hex round trips "
                       "{00,01,7f,80,ff,'A'}^2..8 and every byte string of length 2 and 3; endian 32-bit values with bytes in {00,01,02,7f,80,81,fe,ff}^4 "
                       "and 64-bit values with bytes in {00,01,7f,80,fe,ff}^8 at offsets 0..7; IPv4 octets "
                       "{0,1,9,10,19,20,99,100,127,128,199,200,249,250,254,255}^4 x ports {1,80,9999,65535,256,32768} x 2 forms, every octet value "
                       "0..255 in the first and in the last position, every port 1..65535 (one IPv4 address in both forms, two IPv6 addresses); "
-                      "IPv6 groups {0,1,abcd,ffff,10,a0b}^8 x 6 forms x 4 ports; JSON and Unix paths as in quick")),
+                      "IPv6 groups {0,1,abcd,ffff,10,a0b}^8 x 8 forms (the six of quick plus zero-padded groups and dotted-quad tail) x 4 ports; JSON and Unix paths as in quick")),
         assumptions=["getaddrinfo/freeaddrinfo replaced by the harness (numeric literals only; host names never resolved)",
                      "libcperciva warn()/warnx() replaced by a silent formatter (util/warnp.c not linked)",
                      "well-formed base-64 = syntactic RFC 4648 definition; non-zero discarded bits not required to be rejected (DESIGN.md §5)",
@@ -58,7 +58,7 @@ CLAIMS = {
               "offset is known by construction."),
         note=("Trusted: the reference in engine/ref/ref_codec.c, OpenSSL's EVP_EncodeBlock, the document/address renderers in "
               "harness/hx_common.h and h_codec.c, the harness's getaddrinfo stub (only reached by the unbracketed IPv4 host form), clang "
-              "ASan/UBSan, libc inet_pton/inet_ntop. Bounded: no claim for base-64/hex inputs longer than 8 characters (10/11 in the thorough tier), 32/64-bit values "
+              "ASan/UBSan, libc inet_pton/inet_ntop. Bounded: no claim for base-64/hex inputs longer than 8 characters (10 in the thorough tier), 32/64-bit values "
               "outside the listed byte patterns, JSON documents other than objects built from the listed names/values, scoped IPv6 "
               "literals, host names."),
         technique="exhaustive input enumeration against independent references and expectations known by construction",
